@@ -1,6 +1,585 @@
-(* C17 - proofs about Model/Graph.v (work in progress, replaced below) *)
+(* C17 - proofs about Model/Graph.v *)
 From Gleece Require Import Base.Bytes Model.Graph.
+From Coq Require Import Permutation.
 Local Open Scope N_scope.
 
-Lemma run_nil : run [] = empty.
+(* ------------------------------------------------------------------ A. lists *)
+
+Lemma memN_In x l : memN x l = true <-> In x l.
+Proof.
+  unfold memN. rewrite existsb_exists. split.
+  - intros [y [Hy E]]. apply N.eqb_eq in E. subst; auto.
+  - intros H. exists x. split; auto. apply N.eqb_refl.
+Qed.
+
+Lemma memN_false x l : memN x l = false <-> ~ In x l.
+Proof.
+  rewrite <- memN_In. destruct (memN x l); split; intros H; auto; try discriminate.
+  exfalso; apply H; reflexivity.
+Qed.
+
+Lemma memN_app x a b : memN x (a ++ b) = memN x a || memN x b.
+Proof. unfold memN. apply existsb_app. Qed.
+
+Lemma filter_filter {A} (p q : A -> bool) l :
+  filter q (filter p l) = filter (fun x => p x && q x) l.
+Proof.
+  induction l as [|x l IH]; simpl; auto.
+  destruct (p x) eqn:P; simpl; [destruct (q x)|]; simpl; rewrite ?IH; auto.
+Qed.
+
+Lemma filter_ext_in' {A} (p q : A -> bool) l :
+  (forall x, In x l -> p x = q x) -> filter p l = filter q l.
+Proof. apply filter_ext_in. Qed.
+
+Lemma filter_true {A} (p : A -> bool) l : (forall x, In x l -> p x = true) -> filter p l = l.
+Proof.
+  induction l as [|x l IH]; simpl; intros H; auto.
+  rewrite (H x) by auto. f_equal. apply IH. intros; apply H; auto.
+Qed.
+
+Lemma filter_map_comm {A B} (f : A -> B) (p : B -> bool) l :
+  filter p (map f l) = map f (filter (fun x => p (f x)) l).
+Proof.
+  induction l as [|x l IH]; simpl; auto. destruct (p (f x)); simpl; rewrite IH; auto.
+Qed.
+
+Lemma existsb_map {A B} (f : A -> B) (p : B -> bool) l :
+  existsb p (map f l) = existsb (fun x => p (f x)) l.
+Proof. induction l as [|x l IH]; simpl; auto. rewrite IH; auto. Qed.
+
+Lemma forallb_map {A B} (f : A -> B) (p : B -> bool) l :
+  forallb p (map f l) = forallb (fun x => p (f x)) l.
+Proof. induction l as [|x l IH]; simpl; auto. rewrite IH; auto. Qed.
+
+Lemma existsb_ext_in {A} (p q : A -> bool) l :
+  (forall x, In x l -> p x = q x) -> existsb p l = existsb q l.
+Proof.
+  induction l as [|x l IH]; simpl; intros H; auto.
+  rewrite (H x) by auto. f_equal. apply IH; intros; apply H; auto.
+Qed.
+
+Lemma forallb_ext_in {A} (p q : A -> bool) l :
+  (forall x, In x l -> p x = q x) -> forallb p l = forallb q l.
+Proof.
+  induction l as [|x l IH]; simpl; intros H; auto.
+  rewrite (H x) by auto. f_equal. apply IH; intros; apply H; auto.
+Qed.
+
+Lemma existsb_false {A} (p : A -> bool) l :
+  existsb p l = false <-> (forall x, In x l -> p x = false).
+Proof.
+  induction l as [|x l IH]; simpl.
+  - split; auto. intros _ x [].
+  - rewrite orb_false_iff, IH. split.
+    + intros [H1 H2] y [->|Hy]; auto.
+    + intros H; split; auto.
+Qed.
+
+Lemma find_map {A B} (f : A -> B) (p : B -> bool) l :
+  find p (map f l) = option_map f (find (fun x => p (f x)) l).
+Proof. induction l as [|x l IH]; simpl; auto. destruct (p (f x)); auto. Qed.
+
+Lemma flat_map_ext_in {A B} (f g : A -> list B) l :
+  (forall x, In x l -> f x = g x) -> flat_map f l = flat_map g l.
+Proof.
+  induction l as [|x l IH]; simpl; intros H; auto.
+  rewrite (H x) by auto. f_equal. apply IH; intros; apply H; auto.
+Qed.
+
+Lemma flat_map_map {A B C} (f : A -> B) (g : B -> list C) l :
+  flat_map g (map f l) = flat_map (fun x => g (f x)) l.
+Proof. induction l as [|x l IH]; simpl; auto. rewrite IH; auto. Qed.
+
+Lemma length_filter_le {A} (p : A -> bool) l : (List.length (filter p l) <= List.length l)%nat.
+Proof. induction l as [|x l IH]; simpl; auto. destruct (p x); simpl; lia. Qed.
+
+Lemma length_filter_lt {A} (p : A -> bool) l x :
+  In x l -> p x = false -> (List.length (filter p l) < List.length l)%nat.
+Proof.
+  induction l as [|y l IH]; simpl; intros [] Hp.
+  - subst. rewrite Hp. pose proof (length_filter_le p l). lia.
+  - destruct (p y); simpl; [apply IH in H; auto; lia|].
+    pose proof (length_filter_le p l). lia.
+Qed.
+
+Lemma NoDup_filter {A} (p : A -> bool) l : NoDup l -> NoDup (filter p l).
+Proof.
+  induction 1 as [|x l Hx Hn IH]; simpl; [constructor|].
+  destruct (p x); auto. constructor; auto. rewrite filter_In. tauto.
+Qed.
+
+Lemma NoDup_map_filter {A B} (f : A -> B) (p : A -> bool) l :
+  NoDup (map f l) -> NoDup (map f (filter p l)).
+Proof.
+  induction l as [|x l IH]; simpl; intros H; [constructor|].
+  inversion H as [|? ? Hx Hn]; subst.
+  destruct (p x); simpl; auto. constructor; auto.
+  rewrite in_map_iff in *. intros [y [E Hy]]. apply Hx. exists y. split; auto.
+  apply filter_In in Hy. tauto.
+Qed.
+
+(* ------------------------------------------------------------------ B. the invariant *)
+
+Definition Linked (s : state) (f t : N) : Prop :=
+  exists e, In e (edges s) /\ fb e = f /\ tb e = t.
+
+Definition ekey (e : edesc) : N * N * N := (fb e, ed_kind e, tb e).
+
+Record Inv (s : state) : Prop := {
+  inv_deps : forall f t, (exists k, In (f, k) (deps s) /\ k_base k = t) <-> Linked s f t;
+  inv_rdeps : forall t f, (exists k, In (t, k) (rdeps s) /\ k_base k = f) <-> Linked s f t;
+  inv_ekeys : NoDup (map ekey (edges s));
+  inv_nodes : NoDup (map n_base (nodes s));
+  inv_ord_lt : forall e, In e (edges s) -> ed_ord e < next_ord s;
+  inv_ords : NoDup (map ed_ord (edges s)) }.
+
+Lemma Inv_empty : Inv empty.
+Proof.
+  split; simpl; try constructor; try (intros ? H; destruct H);
+    intros [x [H _]]; destruct H.
+Qed.
+
+Lemma key_eqb_eq a b : key_eqb a b = true <-> a = b.
+Proof.
+  unfold key_eqb. rewrite andb_true_iff, !N.eqb_eq. destruct a, b; simpl. split.
+  - intros [-> ->]; auto.
+  - intros H; inversion H; auto.
+Qed.
+
+Lemma adj_add_In l b k p : In p (adj_add l b k) <-> In p l \/ p = (b, k).
+Proof.
+  unfold adj_add. destruct (existsb _ l) eqn:E.
+  - split; auto. intros [H| ->]; auto.
+    apply existsb_exists in E. destruct E as [[b' k'] [Hin H]]. simpl in H.
+    apply andb_true_iff in H. destruct H as [H1 H2].
+    apply N.eqb_eq in H1. apply key_eqb_eq in H2. subst; auto.
+  - rewrite in_app_iff. simpl. intuition.
+Qed.
+
+Lemma linked_true f t e : linked f t e = true <-> fb e = f /\ tb e = t.
+Proof. unfold linked. rewrite andb_true_iff, !N.eqb_eq. tauto. Qed.
+
+Lemma same_edge_true f k t e : same_edge f k t e = true <-> fb e = f /\ ed_kind e = k /\ tb e = t.
+Proof. unfold same_edge. rewrite !andb_true_iff, !N.eqb_eq. tauto. Qed.
+
+Lemma existsb_linked s f t : existsb (linked f t) (edges s) = true <-> Linked s f t.
+Proof.
+  rewrite existsb_exists. unfold Linked. split; intros [e [H1 H2]]; exists e.
+  - apply linked_true in H2. tauto.
+  - split; auto. apply linked_true; tauto.
+Qed.
+
+(* add_edge *)
+
+Lemma add_edge_nodes s f t k : nodes (add_edge s f t k) = nodes s.
+Proof. unfold add_edge. destruct (existsb _ _); reflexivity. Qed.
+
+Lemma add_edge_deps s f t k : deps (add_edge s f t k) = adj_add (deps s) (k_base f) t.
+Proof. unfold add_edge. destruct (existsb _ _); reflexivity. Qed.
+
+Lemma add_edge_rdeps s f t k : rdeps (add_edge s f t k) = adj_add (rdeps s) (k_base t) f.
+Proof. unfold add_edge. destruct (existsb _ _); reflexivity. Qed.
+
+Lemma add_edge_Linked s f t k f' t' :
+  Linked (add_edge s f t k) f' t' <-> Linked s f' t' \/ (f' = k_base f /\ t' = k_base t).
+Proof.
+  unfold add_edge. destruct (existsb _ (edges s)) eqn:E; unfold Linked; simpl.
+  - split; [intros H; left; exact H|].
+    intros [H|[-> ->]]; auto.
+    apply existsb_exists in E. destruct E as [e [Hin He]]. apply same_edge_true in He.
+    exists e. tauto.
+  - split.
+    + intros [e [Hin [H1 H2]]]. apply in_app_iff in Hin. destruct Hin as [Hin|[<- | [ ]]].
+      * left. exists e; auto.
+      * right. unfold fb, tb in *; simpl in *. auto.
+    + intros [[e [Hin H]]|[-> ->]].
+      * exists e. rewrite in_app_iff. auto.
+      * exists (Ed f t k (next_ord s)). rewrite in_app_iff. simpl. auto.
+Qed.
+
+Lemma NoDup_app_single {A} (l : list A) x : NoDup l -> ~ In x l -> NoDup (l ++ [x]).
+Proof.
+  intros Hn Hx. apply NoDup_rev in Hn. rewrite <- (rev_involutive (l ++ [x])).
+  apply NoDup_rev. rewrite rev_app_distr. simpl. constructor; auto.
+  rewrite <- in_rev. auto.
+Qed.
+
+Lemma add_edge_Inv s f t k : Inv s -> Inv (add_edge s f t k).
+Proof.
+  intros I. split.
+  - intros f' t'. rewrite add_edge_Linked, add_edge_deps, <- (inv_deps s I). split.
+    + intros [k' [Hin Hb]]. apply adj_add_In in Hin. destruct Hin as [Hin|E].
+      * left. eauto.
+      * inversion E; subst. auto.
+    + intros [[k' [Hin Hb]]|[-> ->]].
+      * exists k'. split; auto. apply adj_add_In; auto.
+      * exists t. split; auto. apply adj_add_In; auto.
+  - intros t' f'. rewrite add_edge_Linked, add_edge_rdeps, <- (inv_rdeps s I). split.
+    + intros [k' [Hin Hb]]. apply adj_add_In in Hin. destruct Hin as [Hin|E].
+      * left. eauto.
+      * inversion E; subst. auto.
+    + intros [[k' [Hin Hb]]|[-> ->]].
+      * exists k'. split; auto. apply adj_add_In; auto.
+      * exists f. split; auto. apply adj_add_In; auto.
+  - unfold add_edge. destruct (existsb _ (edges s)) eqn:E; simpl; [apply I|].
+    rewrite map_app. simpl. apply NoDup_app_single; [apply I|].
+    rewrite in_map_iff. intros [e [He Hin]].
+    rewrite existsb_false in E. specialize (E e Hin).
+    unfold ekey in He. simpl in He. inversion He.
+    assert (same_edge (k_base f) k (k_base t) e = true) by (apply same_edge_true; auto).
+    congruence.
+  - rewrite add_edge_nodes. apply I.
+  - unfold add_edge. destruct (existsb _ (edges s)) eqn:E; simpl; [apply I|].
+    intros e Hin. apply in_app_iff in Hin. destruct Hin as [Hin|[<- | [ ]]]; simpl.
+    + pose proof (inv_ord_lt s I e Hin). lia.
+    + lia.
+  - unfold add_edge. destruct (existsb _ (edges s)) eqn:E; simpl; [apply I|].
+    rewrite map_app. simpl. apply NoDup_app_single; [apply I|].
+    rewrite in_map_iff. intros [e [He Hin]].
+    pose proof (inv_ord_lt s I e Hin). lia.
+Qed.
+
+(* remove_edge *)
+
+Definition re_hit (f0 t0 : N) (ko : option N) (e : edesc) : bool := linked f0 t0 e && kind_hit ko e.
+
+Lemma remove_edge_nodes s f t ko : nodes (remove_edge s f t ko) = nodes s.
+Proof. unfold remove_edge. destruct (existsb _ _); reflexivity. Qed.
+
+Lemma remove_edge_next s f t ko : next_ord (remove_edge s f t ko) = next_ord s.
+Proof. unfold remove_edge. destruct (existsb _ _); reflexivity. Qed.
+
+Lemma remove_edge_edges s f t ko :
+  edges (remove_edge s f t ko) =
+  filter (fun e => negb (re_hit (k_base f) (k_base t) ko e)) (edges s).
+Proof. unfold remove_edge. destruct (existsb _ _); reflexivity. Qed.
+
+Lemma remove_edge_Linked_other s f t ko f' t' :
+  (f', t') <> (k_base f, k_base t) ->
+  (Linked (remove_edge s f t ko) f' t' <-> Linked s f' t').
+Proof.
+  intros Hne. unfold Linked. rewrite remove_edge_edges. split.
+  - intros [e [Hin H]]. apply filter_In in Hin. exists e. tauto.
+  - intros [e [Hin [H1 H2]]]. exists e. split; auto. apply filter_In. split; auto.
+    unfold re_hit. destruct (linked (k_base f) (k_base t) e) eqn:L; auto.
+    apply linked_true in L. destruct L; subst. congruence.
+Qed.
+
+Lemma remove_edge_Linked_sub s f t ko f' t' :
+  Linked (remove_edge s f t ko) f' t' -> Linked s f' t'.
+Proof.
+  unfold Linked. rewrite remove_edge_edges. intros [e [Hin H]].
+  apply filter_In in Hin. exists e. tauto.
+Qed.
+
+Lemma pair_dec (a b : N * N) : a = b \/ a <> b.
+Proof.
+  destruct a as [a1 a2], b as [b1 b2].
+  destruct (N.eq_dec a1 b1), (N.eq_dec a2 b2); subst; auto; right; congruence.
+Qed.
+
+Lemma remove_edge_Inv s f t ko : Inv s -> Inv (remove_edge s f t ko).
+Proof.
+  intros I.
+  assert (Hcase : existsb (linked (k_base f) (k_base t)) (edges (remove_edge s f t ko)) =
+                  existsb (linked (k_base f) (k_base t))
+                          (filter (fun e => negb (linked (k_base f) (k_base t) e && kind_hit ko e)) (edges s))).
+  { rewrite remove_edge_edges. reflexivity. }
+  split.
+  - intros f' t'. destruct (pair_dec (f', t') (k_base f, k_base t)) as [E|Hne].
+    + inversion E; subst f' t'. unfold remove_edge.
+      destruct (existsb _ (filter _ _)) eqn:X.
+      * simpl. split.
+        -- intros _. apply existsb_exists in X. destruct X as [e [Hin L]].
+           apply linked_true in L. exists e. simpl. tauto.
+        -- intros H. apply (inv_deps s I).
+           destruct H as [e [Hin H]]. simpl in Hin. apply filter_In in Hin. exists e. tauto.
+      * simpl. split.
+        -- intros [k [Hin Hb]]. apply filter_In in Hin. destruct Hin as [_ Hin]. simpl in Hin.
+           rewrite N.eqb_refl, Hb, N.eqb_refl in Hin. discriminate.
+        -- intros [e [Hin [H1 H2]]]. simpl in Hin. rewrite existsb_false in X.
+           specialize (X e Hin). assert (linked (k_base f) (k_base t) e = true) by (apply linked_true; auto).
+           congruence.
+    + rewrite (remove_edge_Linked_other s f t ko f' t' Hne), <- (inv_deps s I).
+      unfold remove_edge. destruct (existsb _ (filter _ _)); simpl; [tauto|].
+      split.
+      * intros [k [Hin Hb]]. apply filter_In in Hin. exists k. tauto.
+      * intros [k [Hin Hb]]. exists k. split; auto. apply filter_In. split; auto. simpl.
+        destruct (f' =? k_base f) eqn:E1; auto. destruct (k_base k =? k_base t) eqn:E2; auto.
+        apply N.eqb_eq in E1, E2. subst. congruence.
+  - intros t' f'. destruct (pair_dec (f', t') (k_base f, k_base t)) as [E|Hne].
+    + inversion E; subst f' t'. unfold remove_edge.
+      destruct (existsb _ (filter _ _)) eqn:X.
+      * simpl. split.
+        -- intros _. apply existsb_exists in X. destruct X as [e [Hin L]].
+           apply linked_true in L. exists e. simpl. tauto.
+        -- intros H. apply (inv_rdeps s I).
+           destruct H as [e [Hin H]]. simpl in Hin. apply filter_In in Hin. exists e. tauto.
+      * simpl. split.
+        -- intros [k [Hin Hb]]. apply filter_In in Hin. destruct Hin as [_ Hin]. simpl in Hin.
+           rewrite N.eqb_refl, Hb, N.eqb_refl in Hin. discriminate.
+        -- intros [e [Hin [H1 H2]]]. simpl in Hin. rewrite existsb_false in X.
+           specialize (X e Hin). assert (linked (k_base f) (k_base t) e = true) by (apply linked_true; auto).
+           congruence.
+    + rewrite (remove_edge_Linked_other s f t ko f' t' Hne), <- (inv_rdeps s I).
+      unfold remove_edge. destruct (existsb _ (filter _ _)); simpl; [tauto|].
+      split.
+      * intros [k [Hin Hb]]. apply filter_In in Hin. exists k. tauto.
+      * intros [k [Hin Hb]]. exists k. split; auto. apply filter_In. split; auto. simpl.
+        destruct (t' =? k_base t) eqn:E1; auto. destruct (k_base k =? k_base f) eqn:E2; auto.
+        apply N.eqb_eq in E1, E2. subst. congruence.
+  - rewrite remove_edge_edges. apply NoDup_map_filter, I.
+  - rewrite remove_edge_nodes. apply I.
+  - rewrite remove_edge_edges, remove_edge_next. intros e Hin. apply filter_In in Hin.
+    apply (inv_ord_lt s I). tauto.
+  - rewrite remove_edge_edges. apply NoDup_map_filter, I.
+Qed.
+
+Lemma remove_edge_rdeps_le s f t ko :
+  (List.length (rdeps (remove_edge s f t ko)) <= List.length (rdeps s))%nat.
+Proof.
+  unfold remove_edge. destruct (existsb _ _); simpl; auto. apply length_filter_le.
+Qed.
+
+(* RemoveEdge(from, to, nil) deletes the revDeps entry it was found through *)
+Lemma remove_edge_rdeps_lt s d k :
+  In (k_base k, d) (rdeps s) ->
+  (List.length (rdeps (remove_edge s d k None)) < List.length (rdeps s))%nat.
+Proof.
+  intros Hin. unfold remove_edge.
+  destruct (existsb _ (filter _ _)) eqn:X.
+  - exfalso. apply existsb_exists in X. destruct X as [e [He L]].
+    apply filter_In in He. destruct He as [_ He]. simpl in He.
+    rewrite L in He. discriminate.
+  - simpl. apply length_filter_lt with (x := (k_base k, d)); auto.
+    simpl. rewrite !N.eqb_refl. reflexivity.
+Qed.
+
+(* nodes-only changes *)
+
+Lemma Inv_nodes_change s ns :
+  Inv s -> NoDup (map n_base ns) -> Inv (St ns (edges s) (deps s) (rdeps s) (next_ord s)).
+Proof. intros I H. destruct I. split; simpl; auto. Qed.
+
+Lemma set_node_Inv s n : Inv s -> Inv (set_node s n).
+Proof.
+  intros I. apply Inv_nodes_change; auto.
+  rewrite map_app. simpl. apply NoDup_app_single.
+  - apply NoDup_map_filter, I.
+  - rewrite in_map_iff. intros [m [E Hin]]. apply filter_In in Hin. destruct Hin as [_ H].
+    rewrite E, N.eqb_refl in H. discriminate.
+Qed.
+
+Lemma add_builtin_Inv s k kind : Inv s -> Inv (add_builtin s k kind).
+Proof. intros I. unfold add_builtin. destruct (has_node _ _); auto using set_node_Inv. Qed.
+
+(* ------------------------------------------------------------------ C. refinement of the elementary ops *)
+
+Definition pnode (n : node) : snode := Sn (n_base n) (n_kind n) (n_ver n).
+
+Lemma abs_nodes s : sp_nodes (abs s) = map pnode (nodes s).
 Proof. reflexivity. Qed.
+Lemma abs_edges s : sp_edges (abs s) = map proj_edge (edges s).
+Proof. reflexivity. Qed.
+
+Lemma sp_has_abs s b : sp_has (abs s) b = has_node s b.
+Proof. unfold sp_has, has_node. rewrite abs_nodes, existsb_map. reflexivity. Qed.
+
+Lemma sp_get_abs s b : sp_get (abs s) b = option_map pnode (get_node s b).
+Proof. unfold sp_get, get_node. rewrite abs_nodes, find_map. reflexivity. Qed.
+
+Lemma get_node_base s b n : get_node s b = Some n -> n_base n = b.
+Proof. unfold get_node. intros H. apply find_some in H. apply N.eqb_eq. tauto. Qed.
+
+Lemma get_node_In s b n : get_node s b = Some n -> In n (nodes s).
+Proof. unfold get_node. intros H. apply find_some in H. tauto. Qed.
+
+Lemma has_get_node s b : has_node s b = match get_node s b with Some _ => true | None => false end.
+Proof.
+  unfold has_node, get_node. induction (nodes s) as [|n l IH]; simpl; auto.
+  destruct (n_base n =? b); simpl; auto.
+Qed.
+
+Lemma abs_add_edge s f t k :
+  abs (add_edge s f t k) = sp_add_edge (abs s) (k_base f) k (k_base t).
+Proof.
+  unfold sp_add_edge. rewrite abs_edges, existsb_map.
+  assert (E : existsb (fun x => sedge_eqb (Se (k_base f) k (k_base t)) (proj_edge x)) (edges s)
+              = existsb (same_edge (k_base f) k (k_base t)) (edges s)).
+  { apply existsb_ext_in. intros e _. unfold sedge_eqb, same_edge, proj_edge. simpl.
+    rewrite (N.eqb_sym (fb e)), (N.eqb_sym (ed_kind e)), (N.eqb_sym (tb e)). reflexivity. }
+  rewrite E. clear E. unfold add_edge.
+  destruct (existsb (same_edge (k_base f) k (k_base t)) (edges s)); unfold abs; simpl; auto.
+  rewrite map_app. reflexivity.
+Qed.
+
+Lemma abs_remove_edge s f t ko :
+  abs (remove_edge s f t ko) = sp_remove_edge (abs s) (k_base f) (k_base t) ko.
+Proof.
+  unfold sp_remove_edge, abs. rewrite remove_edge_nodes, remove_edge_edges. simpl. f_equal.
+  rewrite filter_map_comm. apply f_equal. apply filter_ext_in'. intros e _.
+  unfold re_hit, linked, kind_hit, proj_edge. simpl. destruct ko; reflexivity.
+Qed.
+
+Lemma abs_set_node s n : abs (set_node s n) = sp_set_node (abs s) (pnode n).
+Proof.
+  unfold sp_set_node, set_node, abs. simpl. f_equal.
+  rewrite map_app, filter_map_comm. reflexivity.
+Qed.
+
+Lemma abs_add_builtin s k kind :
+  abs (add_builtin s k kind) = sp_add_builtin (abs s) (k_base k) kind.
+Proof.
+  unfold add_builtin, sp_add_builtin. rewrite sp_has_abs.
+  destruct (has_node s (k_base k)); auto. rewrite abs_set_node. reflexivity.
+Qed.
+
+(* ------------------------------------------------------------------ D. RemoveNode *)
+
+(* the dependants left without any remaining dependency, as a least fixed point
+   (impredicative encoding: the intersection of all closed sets containing the root) *)
+Definition casc_closed (sp : spec) (P : N -> Prop) : Prop :=
+  forall d, sp_has sp d = true ->
+    (exists e, In e (sp_edges sp) /\ se_from e = d /\ P (se_to e)) ->
+    (forall e, In e (sp_edges sp) -> se_from e = d -> P (se_to e) \/ sp_has sp (se_to e) = false) ->
+    P d.
+Definition Casc (sp : spec) (root d : N) : Prop :=
+  forall P : N -> Prop, P root -> casc_closed sp P -> P d.
+
+Lemma casc_root sp root : Casc sp root root.
+Proof. intros P H _. exact H. Qed.
+
+Lemma casc_step sp root : casc_closed sp (Casc sp root).
+Proof.
+  intros d Hd [e [Hin [Hf He]]] Hall P Hroot Hcl.
+  apply Hcl; auto.
+  - exists e. split; auto. split; auto. apply He; auto.
+  - intros e' Hin' Hf'. destruct (Hall e' Hin' Hf') as [H|H]; auto. left. apply H; auto.
+Qed.
+
+Lemma In_abs_edges s se : In se (sp_edges (abs s)) <-> exists e, In e (edges s) /\ proj_edge e = se.
+Proof. rewrite abs_edges, in_map_iff. split; intros [e [A B]]; exists e; auto. Qed.
+
+Lemma cascS_step s b d :
+  has_node s d = true ->
+  (exists e, In e (edges s) /\ fb e = d /\ Casc (abs s) b (tb e)) ->
+  (forall e, In e (edges s) -> fb e = d -> Casc (abs s) b (tb e) \/ has_node s (tb e) = false) ->
+  Casc (abs s) b d.
+Proof.
+  intros Hd [e [Hin [Hf He]]] Hall. apply casc_step.
+  - rewrite sp_has_abs; auto.
+  - exists (proj_edge e). split; [apply In_abs_edges; eauto|]. simpl. auto.
+  - intros se Hse Hf'. apply In_abs_edges in Hse. destruct Hse as [e' [Hin' <-]]. simpl in *.
+    rewrite sp_has_abs. auto.
+Qed.
+
+Lemma cascS_ind s b (P : N -> Prop) :
+  P b ->
+  (forall d, has_node s d = true ->
+     (exists e, In e (edges s) /\ fb e = d /\ P (tb e)) ->
+     (forall e, In e (edges s) -> fb e = d -> P (tb e) \/ has_node s (tb e) = false) -> P d) ->
+  forall d, Casc (abs s) b d -> P d.
+Proof.
+  intros Hb Hst d Hd. apply Hd; auto.
+  intros x Hx [se [Hin [Hf Hp]]] Hall. rewrite sp_has_abs in Hx.
+  apply In_abs_edges in Hin. destruct Hin as [e [Hin <-]]. simpl in *.
+  apply Hst; eauto.
+  intros e' Hin' Hf'. specialize (Hall (proj_edge e')). simpl in Hall. rewrite sp_has_abs in Hall.
+  apply Hall; auto. apply In_abs_edges; eauto.
+Qed.
+
+Definition touches (X : list N) (e : edesc) : bool := memN (fb e) X || memN (tb e) X.
+
+Definition Good (st : state) (d : N) : Prop :=
+  exists e, In e (edges st) /\ fb e = d /\ has_node st (tb e) = true.
+Definition Lost (s s' : state) (d : N) : Prop :=
+  exists e, In e (edges s) /\ fb e = d /\ ~ In e (edges s').
+
+Lemma has_node_true s b : has_node s b = true <-> exists n, In n (nodes s) /\ n_base n = b.
+Proof.
+  unfold has_node. rewrite existsb_exists. split; intros [n [A B]]; exists n; split; auto.
+  - apply N.eqb_eq; auto. - apply N.eqb_eq; auto.
+Qed.
+
+Lemma has_node_filter s st X b :
+  nodes st = filter (fun n => negb (memN (n_base n) X)) (nodes s) ->
+  has_node st b = has_node s b && negb (memN b X).
+Proof.
+  intros H. unfold has_node. rewrite H. clear H. induction (nodes s) as [|n l IH]; simpl; auto.
+  destruct (n_base n =? b) eqn:E.
+  - apply N.eqb_eq in E. subst. destruct (memN (n_base n) X) eqn:M; simpl.
+    + rewrite IH. rewrite andb_false_r. reflexivity.
+    + rewrite N.eqb_refl. reflexivity.
+  - destruct (memN (n_base n) X); simpl; rewrite ?E; auto.
+Qed.
+
+Lemma orphaned_false_Good st d : Inv st -> orphaned st d = false -> Good st d.
+Proof.
+  intros I H. unfold orphaned in H. apply negb_false_iff in H.
+  apply existsb_exists in H. destruct H as [[f k] [Hin H]]. simpl in H.
+  apply andb_true_iff in H. destruct H as [H1 H2]. apply N.eqb_eq in H1. subst f.
+  assert (L : Linked st d (k_base k)) by (apply (inv_deps st I); eauto).
+  destruct L as [e [He [Hf Ht]]]. exists e. rewrite Ht. auto.
+Qed.
+
+Lemma orphaned_true_targets st d e :
+  Inv st -> orphaned st d = true -> In e (edges st) -> fb e = d -> has_node st (tb e) = false.
+Proof.
+  intros I H Hin Hf. unfold orphaned in H. apply negb_true_iff in H.
+  rewrite existsb_false in H.
+  assert (L : Linked st d (tb e)) by (exists e; auto).
+  apply (inv_deps st I) in L. destruct L as [k [Hk Hb]].
+  specialize (H _ Hk). simpl in H. rewrite N.eqb_refl, Hb in H. simpl in H. exact H.
+Qed.
+
+Lemma memN_single x y : memN x [y] = (x =? y).
+Proof. unfold memN. simpl. apply orb_false_r. Qed.
+
+Lemma touches_app X Y e : touches (X ++ Y) e = touches X e || touches Y e.
+Proof.
+  unfold touches. rewrite !memN_app.
+  destruct (memN (fb e) X), (memN (tb e) X), (memN (fb e) Y), (memN (tb e) Y); reflexivity.
+Qed.
+
+(* the outgoing-edges loop of RemoveNode *)
+Lemma out_loop k b l : forall st,
+  Inv st -> k_base k = b ->
+  let st' := fold_left (fun st e => remove_edge st k (ed_to e) (Some (ed_kind e))) l st in
+  Inv st' /\ nodes st' = nodes st /\ next_ord st' = next_ord st /\
+  (List.length (rdeps st') <= List.length (rdeps st))%nat /\
+  edges st' = filter (fun e => negb (existsb (fun x => same_edge b (ed_kind x) (tb x) e) l)) (edges st).
+Proof.
+  induction l as [|x l IH]; intros st I Hb; simpl.
+  - split; [auto|]. split; [auto|]. split; [auto|]. split; [auto|].
+    symmetry. apply filter_true. auto.
+  - pose proof (remove_edge_Inv st k (ed_to x) (Some (ed_kind x)) I) as I1.
+    destruct (IH _ I1 Hb) as [A [B [C [D E]]]]. simpl in *.
+    split; auto. split; [rewrite B; apply remove_edge_nodes|].
+    split; [rewrite C; apply remove_edge_next|].
+    split; [pose proof (remove_edge_rdeps_le st k (ed_to x) (Some (ed_kind x))); lia|].
+    rewrite E, remove_edge_edges, filter_filter. apply filter_ext_in'. intros e _.
+    rewrite negb_orb. f_equal. unfold re_hit, same_edge, linked, kind_hit, tb. rewrite Hb.
+    destruct (fb e =? b), (ed_kind e =? ed_kind x), (k_base (ed_to e) =? k_base (ed_to x)); reflexivity.
+Qed.
+
+Lemma drop_node_Inv st b :
+  Inv st -> (forall e, In e (edges st) -> fb e <> b /\ tb e <> b) -> Inv (drop_node st b).
+Proof.
+  intros I H. split; simpl; try apply I.
+  - intros f t. change (Linked (drop_node st b) f t) with (Linked st f t).
+    rewrite <- (inv_deps st I). split.
+    + intros [k [Hin Hk]]. apply filter_In in Hin. exists k. tauto.
+    + intros [k [Hin Hk]]. exists k. split; auto. apply filter_In. split; auto. simpl.
+      assert (L : Linked st f t) by (apply (inv_deps st I); eauto).
+      destruct L as [e [He [Hf Ht]]]. destruct (H e He) as [H1 _].
+      apply negb_true_iff, N.eqb_neq. congruence.
+  - intros t f. change (Linked (drop_node st b) f t) with (Linked st f t).
+    rewrite <- (inv_rdeps st I). split.
+    + intros [k [Hin Hk]]. apply filter_In in Hin. exists k. tauto.
+    + intros [k [Hin Hk]]. exists k. split; auto. apply filter_In. split; auto. simpl.
+      assert (L : Linked st f t) by (apply (inv_rdeps st I); eauto).
+      destruct L as [e [He [Hf Ht]]]. destruct (H e He) as [_ H2].
+      apply negb_true_iff, N.eqb_neq. congruence.
+  - apply NoDup_map_filter, I.
+Qed.
